@@ -127,8 +127,49 @@ pub(crate) fn classify_each(text: &str, generated: &str, stderr: &str) -> Option
     Some(out)
 }
 
+/// input class of F-member-name-collision: one SEQUENCE / SET / CHOICE body lists two identifiers
+/// whose Rust forms (snake case, hyphens to underscores, keyword escape) coincide
+fn has_colliding_members(text: &str) -> bool {
+    let snake = |id: &str| -> String {
+        let mut o = String::new();
+        for (i, c) in id.chars().enumerate() {
+            if c == '-' {
+                o.push('_');
+            } else if c.is_uppercase() {
+                if i > 0 && !o.ends_with('_') {
+                    o.push('_');
+                }
+                o.extend(c.to_lowercase());
+            } else {
+                o.push(c);
+            }
+        }
+        o.trim_start_matches("r_").to_string()
+    };
+    for body in text.split('{').skip(1) {
+        let body = body.split('}').next().unwrap_or("");
+        let mut seen = std::collections::BTreeSet::new();
+        for comp in body.split(',') {
+            if let Some(id) = comp.split_whitespace().next() {
+                if id.starts_with(|c: char| c.is_lowercase()) && !seen.insert(snake(id)) {
+                    return true;
+                }
+            }
+        }
+    }
+    false
+}
+
 pub(crate) fn classify(text: &str, generated: &str, stderr: &str) -> Option<&'static str> {
     let errs = error_lines(stderr);
+    if !errs.is_empty()
+        && has_colliding_members(text)
+        && errs.iter().any(|l| l.starts_with("error[E0124]") || l.starts_with("error[E0415]"))
+        // (E0308: the second of the two parameters shadows the first, of another type)
+        && errs.iter().all(|l| ["E0124", "E0428", "E0415", "E0416", "E0119", "E0062", "E0308"].iter().any(|c| l.starts_with(&format!("error[{c}]"))))
+    {
+        return Some("F-member-name-collision");
+    }
     if !errs.is_empty()
         && has_set_member_value_con(text)
         && errs.iter().any(|l| l.contains("Unsupported meta item"))
@@ -664,6 +705,19 @@ fn keyword_type_name_leg(ctx: &mut Ctx, host: &Host) {
     text_leg(ctx, host, "type-reference-spelled-like-a-keyword", &texts, &[0, 3]);
 }
 
+/// identifiers that are distinct in ASN.1 and coincide after the documented conversion
+/// (`fooBar` / `foo-bar`, `type` / `r-type`) as components, alternatives and enumerals
+fn member_name_collision_leg(ctx: &mut Ctx, host: &Host) {
+    let pairs = [("fooBar", "foo-bar"), ("type", "r-type"), ("aB", "a-b"), ("x1Y", "x1-y")];
+    let mut texts = vec![];
+    for (a, b) in pairs {
+        texts.push(format!("Kc-Mod DEFINITIONS AUTOMATIC TAGS ::= BEGIN\nS ::= SEQUENCE {{ {a} INTEGER, {b} BOOLEAN }}\nEND\n"));
+        texts.push(format!("Kc-Mod DEFINITIONS AUTOMATIC TAGS ::= BEGIN\nT ::= SET {{ {a} INTEGER, mid NULL, {b} BOOLEAN OPTIONAL }}\nEND\n"));
+        texts.push(format!("Kc-Mod DEFINITIONS AUTOMATIC TAGS ::= BEGIN\nC ::= CHOICE {{ {a} INTEGER, {b} BOOLEAN }}\nEND\n"));
+    }
+    text_leg(ctx, host, "member-names-that-coincide-after-conversion", &texts, &[0]);
+}
+
 pub fn run(tier: Tier, seed: u64, replay: Option<String>) -> i32 {
     let mut ctx = Ctx::new("C01", tier, seed);
     ctx.rule = "module sets from the §3 grammar generator (proptest choice streams) x RasnConfig round-robin; \
@@ -822,6 +876,7 @@ pub fn run(tier: Tier, seed: u64, replay: Option<String>) -> i32 {
     module_identifier_leg(&mut ctx, &host);
     default_by_reference_leg(&mut ctx, &host);
     keyword_type_name_leg(&mut ctx, &host);
+    member_name_collision_leg(&mut ctx, &host);
     ctx.extra.insert("premise_satisfied".into(), json!(premise));
     ctx.extra.insert("compile_outcomes".into(), json!(outcomes));
     ctx.extra.insert("generated_inputs".into(), json!(done));
